@@ -23,6 +23,21 @@ def s_min():
                 feats=[(tag('tst1'), 256, 0, [(0, 257), (1, 258)])], langs=[(tag('en'), [(tag('tst1'), 1)])])
 
 
+def s_twoclass():
+    """The same glyphs in two lookup classes with different member indices: 'a'/'b' after 'c' are substituted through class [b a], otherwise through class [a b]
+    (a class search that remembers where it last found a glyph must not carry that over to another class)."""
+    glyphs = [dict(adv=400 + 50 * i, attrs={5: i}) for i in range(7)]           # 0 notdef 1 space 2 a 3 b 4 c 5 x 6 y
+    cm = {0x20: 1, 0x61: 2, 0x62: 3, 0x63: 4}
+    ab = {2, 3}; c = {4}
+    classes = [[5, 6], [2, 3], [3, 2], [3, 2, 4]]                                # 0 out [x y] (linear); 1 [a b]; 2 [b a]; 3 [b a c]
+    rules = [
+        Rule(1, [c, ab], A('PUT_SUBS', 0, 0, 2, 0, 0, 'NEXT', 'RET_ZERO'), name='[b a] > [x y] / c _'),
+        Rule(0, [ab], A('PUT_SUBS', 0, 0, 1, 0, 0, 'NEXT', 'RET_ZERO'), name='[a b] > [x y]'),
+    ]
+    return dict(glyphs=glyphs, cmap=cm, num_attrs=16, silf=dict(passes=[dict(rules=rules)], classes=classes, nlinear=1, maxPre=1),
+                names={256: 'Feature One', 257: 'Off', 258: 'On'}, feats=[(tag('tst1'), 256, 0, [(0, 257), (1, 258)])], langs=[])
+
+
 # glyph ids of S-full
 G = dict(notdef=0, space=1, a=2, b=3, c=4, d=5, x=6, y=7, z=8, acute=9, grave=10, pseudo=11, astral=12, lig=13, e=14, f=15)
 # glyph attribute ids of S-full
@@ -40,7 +55,7 @@ def octabox(sub=0):
     return dict(bitmap=bitmap, diag=(0, 255, 0, 255), subs=subs)
 
 
-def s_full(version=5, glat_version=3, compress=(), rtl=False, with_collision=True, subboxes=True, glyf=True, extra_attr_glyphs=0, dense_attrs=False, line_ends=False, cmap_edges=False, pass_bits=False, bad_glyph=None, bidi_pass=False, feat_pconstraint=False, just_step=1):
+def s_full(version=5, glat_version=3, compress=(), rtl=False, with_collision=True, subboxes=True, glyf=True, extra_attr_glyphs=0, dense_attrs=False, line_ends=False, cmap_edges=False, pass_bits=False, bad_glyph=None, bidi_pass=False, feat_pconstraint=False, just_step=1, many_pseudos=False, no_just=False):
     names = ['notdef', 'space', 'a', 'b', 'c', 'd', 'x', 'y', 'z', 'acute', 'grave', 'pseudo', 'astral', 'lig', 'e', 'f']
     glyphs = []
     for i, n in enumerate(names):
@@ -65,7 +80,7 @@ def s_full(version=5, glat_version=3, compress=(), rtl=False, with_collision=Tru
         glyphs.append(g)
     cm = {0x20: 1, 0x61: G['a'], 0x62: G['b'], 0x63: G['c'], 0x64: G['d'], 0x65: G['e'], 0x66: G['f'], 0x301: G['acute'], 0x300: G['grave'], 0x10000: G['astral'], 0x10400: G['astral']}
     if cmap_edges:      # first format 4 segment starts at U+0000, the closing segment FFFC..FFFF carries real mappings
-        cm.update({0: G['x'], 1: G['y'], 2: G['z'], 0xFFFC: G['x'], 0xFFFD: G['y'], 0xFFFE: G['z'], 0xFFFF: G['acute']})
+        cm.update({0: G['x'], 1: G['y'], 2: G['z'], 0xFFFC: G['x'], 0xFFFD: G['y'], 0xFFFE: G['z'], 0xFFFF: G['acute'], 0x100041: G['astral'], 0x10FFFF: G['astral']})      # + plane 16
     S = lambda *n: {G[k] for k in n}
     classes = [[G['x']], [G['y']], [G['z']], [G['x'], G['y']], [G['lig']],          # linear / output
                [G['a'], G['b']], [G['a'], G['b'], G['c'], G['d']]]                   # lookup / input
@@ -99,8 +114,8 @@ def s_full(version=5, glat_version=3, compress=(), rtl=False, with_collision=Tru
     if with_collision and glat_version >= 3:
         passes.append(dict(maxloop=1, flags=1, rules=[]))
         flags |= 0x20
-    silf = dict(version=version, passes=passes, classes=classes, nlinear=nlinear, pseudos=[(0x2022, G['pseudo'])],
-                jlevels=[(GA['jstretch'], GA['jshrink'], GA['jstep'], GA['jweight'])], iSubst=0, iPos=2, iJust=len(passes), flags=flags,
+    silf = dict(version=version, passes=passes, classes=classes, nlinear=nlinear, pseudos=([(0x2022 + k, G['pseudo']) for k in range(12)] if many_pseudos else [(0x2022, G['pseudo'])]),
+                jlevels=([] if no_just else [(GA['jstretch'], GA['jshrink'], GA['jstep'], GA['jweight'])]), iSubst=0, iPos=2, iJust=len(passes), flags=flags,
                 aPseudo=GA['pseudo'], aBreak=GA['brk'], aBidi=GA['bidi'], aMirror=GA['mirror'], aPassBits=GA['passbits'] if pass_bits else 0, numUser=2, dir=1 if rtl else 0,
                 aCollision=GA['coll'] if (with_collision and glat_version >= 3) else 0, critFeatures=[0], scriptTags=[tag('latn')], maxPre=1, maxPost=2)
     if bidi_pass: silf['iBidi'] = len(passes)          # the loader wants iBidi >= iJust: the bidi / mirroring step comes after the last pass
@@ -184,7 +199,7 @@ def write_all(outdir):
     fonts = {'s_min': s_min(), 's_full': s_full(), 's_full_z': s_full(compress=('Silf', 'Glat')), 's_full_v3': s_full(version=3, glat_version=1, with_collision=False),
              's_full_v4': s_full(version=4, glat_version=2, with_collision=False), 's_full_rtl': s_full(rtl=True), 's_full_nosub': s_full(subboxes=False),
              's_full_zs': s_full(compress=('Silf',)), 's_full_zg': s_full(compress=('Glat',)),
-             's_full_noglyf': s_full(glyf=False), 's_full_extra': s_full(extra_attr_glyphs=3), 's_full_dense': s_full(dense_attrs=True), 's_full_le': s_full(line_ends=True), 's_full_cmapedge': s_full(cmap_edges=True), 's_full_pb': s_full(pass_bits=True, feat_pconstraint=True), 's_full_step': s_full(just_step=3), 's_full_unsorted': s_full(), 's_full_bidi': s_full(bidi_pass=True), 's_full_rtl_bidi': s_full(rtl=True, bidi_pass=True), 's_full_badglyph': s_full(bad_glyph='e'), 's_full_badlast': s_full(bad_glyph='f'), 's_full_rtl_le': s_full(rtl=True, line_ends=True)}
+             's_full_noglyf': s_full(glyf=False), 's_full_extra': s_full(extra_attr_glyphs=3), 's_full_dense': s_full(dense_attrs=True), 's_full_le': s_full(line_ends=True), 's_full_cmapedge': s_full(cmap_edges=True), 's_full_pb': s_full(pass_bits=True, feat_pconstraint=True), 's_full_step': s_full(just_step=3), 's_full_pseudos': s_full(many_pseudos=True), 's_full_nojust': s_full(no_just=True), 's_twoclass': s_twoclass(), 's_full_unsorted': s_full(), 's_full_bidi': s_full(bidi_pass=True), 's_full_rtl_bidi': s_full(rtl=True, bidi_pass=True), 's_full_badglyph': s_full(bad_glyph='e'), 's_full_badlast': s_full(bad_glyph='f'), 's_full_rtl_le': s_full(rtl=True, line_ends=True)}
     fonts.update(feat_family())
     index = {}
     for name, spec in fonts.items():
